@@ -19,7 +19,7 @@ package document
 //@ func StringArray
 //@   loop 1
 //@     invariant len(result) <= _k
-//@     invariant (forall i int :: 0 <= i && i < _k ==> isType(entries[i], "string")) ==> len(result) == _k && (forall i int :: 0 <= i && i < _k ==> result[i] == unbox(entries[i], "string"))
+//@     invariant (forall i int :: 0 <= i && i < _k ==> isType(unbox(entry, "[]any")[i], "string")) ==> len(result) == _k && (forall i int :: 0 <= i && i < _k ==> result[i] == unbox(unbox(entry, "[]any")[i], "string"))
 //@   ensures !isType(entry, "[]any") ==> len(result) == 0
 //@   ensures isType(entry, "[]any") ==> len(result) <= len(unbox(entry, "[]any"))
 //@   ensures isType(entry, "[]any") && (forall i int :: 0 <= i && i < len(unbox(entry, "[]any")) ==> isType(unbox(entry, "[]any")[i], "string")) ==> len(result) == len(unbox(entry, "[]any")) && (forall i int :: 0 <= i && i < len(result) ==> result[i] == unbox(unbox(entry, "[]any")[i], "string"))
@@ -30,7 +30,7 @@ package document
 //@ func ParsePublicKeys
 //@   loop 1
 //@     invariant len(result) <= _k
-//@     invariant (forall i int :: 0 <= i && i < _k ==> isType(typedEntry[i], "map[string]any")) ==> len(result) == _k && (forall i int :: 0 <= i && i < _k ==> result[i] == unbox(typedEntry[i], "map[string]any"))
+//@     invariant (forall i int :: 0 <= i && i < _k ==> isType(unbox(entry, "[]any")[i], "map[string]any")) ==> len(result) == _k && (forall i int :: 0 <= i && i < _k ==> result[i] == unbox(unbox(entry, "[]any")[i], "map[string]any"))
 //@   ensures !isType(entry, "[]any") ==> len(result) == 0
 //@   ensures isType(entry, "[]any") ==> len(result) <= len(unbox(entry, "[]any"))
 //@   ensures isType(entry, "[]any") && (forall i int :: 0 <= i && i < len(unbox(entry, "[]any")) ==> isType(unbox(entry, "[]any")[i], "map[string]any")) ==> len(result) == len(unbox(entry, "[]any")) && (forall i int :: 0 <= i && i < len(result) ==> result[i] == unbox(unbox(entry, "[]any")[i], "map[string]any"))
@@ -38,7 +38,7 @@ package document
 //@ func ParseServices
 //@   loop 1
 //@     invariant len(result) <= _k
-//@     invariant (forall i int :: 0 <= i && i < _k ==> isType(typedEntry[i], "map[string]any")) ==> len(result) == _k && (forall i int :: 0 <= i && i < _k ==> result[i] == unbox(typedEntry[i], "map[string]any"))
+//@     invariant (forall i int :: 0 <= i && i < _k ==> isType(unbox(entry, "[]any")[i], "map[string]any")) ==> len(result) == _k && (forall i int :: 0 <= i && i < _k ==> result[i] == unbox(unbox(entry, "[]any")[i], "map[string]any"))
 //@   ensures !isType(entry, "[]any") ==> len(result) == 0
 //@   ensures isType(entry, "[]any") ==> len(result) <= len(unbox(entry, "[]any"))
 //@   ensures isType(entry, "[]any") && (forall i int :: 0 <= i && i < len(unbox(entry, "[]any")) ==> isType(unbox(entry, "[]any")[i], "map[string]any")) ==> len(result) == len(unbox(entry, "[]any")) && (forall i int :: 0 <= i && i < len(result) ==> result[i] == unbox(unbox(entry, "[]any")[i], "map[string]any"))
